@@ -19,7 +19,15 @@ def main():
     except ModuleNotFoundError:
         json.dump({"property": a.property, "evaluations": 0, "distinct_nontrivial": 0, "failures": [], "note": "no bounded harness for this property yet"}, open(a.out, "w"))
         return 0
-    res = mod.run(a.tier, a.seed, [f for f in a.functions.split(",") if f])
+    from harness.monitor import Monitors
+    mon = Monitors(prop=a.property).arm()
+    try:
+        res = mod.run(a.tier, a.seed, [f for f in a.functions.split(",") if f])
+    finally:
+        mon.disarm()
+    res.monitors = {"evaluations_per_contract": mon.evals, "not_evaluable": mon.skipped}
+    for f in mon.failures:
+        res.fail(**f)
     out = res.to_json()
     out["wall_s"] = round(time.time() - t0, 2)
     json.dump(out, open(a.out, "w"), indent=1, default=repr)
